@@ -22,10 +22,26 @@ type scripted struct {
 	body      []byte
 	starts    []time.Time
 	ends      []time.Time
+	runaway   bool
+	same      int // consecutive attempts started at the same (virtual) instant
 }
 
+const runawayAttempts = 20000
+
 func (s *scripted) Get(url string) (map[string][]string, []byte, error) {
-	s.starts = append(s.starts, time.Now())
+	now := time.Now()
+	if n := len(s.starts); n > 0 && now.Equal(s.starts[n-1]) {
+		s.same++
+	} else {
+		s.same = 0
+	}
+	if s.same >= runawayAttempts {
+		// a retry loop that never lets (virtual) time advance: force the clock forward so the call can end, and report it
+		s.runaway = true
+		time.Sleep(24 * time.Hour)
+		return nil, nil, errors.New("scripted failure (runaway)")
+	}
+	s.starts = append(s.starts, now)
 	if s.dur > 0 {
 		time.Sleep(s.dur)
 	}
@@ -70,6 +86,9 @@ func runCase(c c20Case, s *gen.Stream) (string, string) {
 	h, b, err := r.Get("https://example.test/x")
 	elapsed := time.Since(t0)
 	attempts := len(sg.starts)
+	if sg.runaway {
+		return "busy-loop", fmt.Sprintf("%s: %d attempts in a row without the clock advancing", c, runawayAttempts)
+	}
 	// (2) spacing between failed attempts
 	for i := 1; i < attempts; i++ {
 		gap := sg.starts[i].Sub(sg.ends[i-1])
